@@ -47,6 +47,8 @@ def exact_gate(ctx, rule, fa, node, guard, what, assume=(), ignore=(), key=None)
     for g in ignore:
         ign |= set(terms.parse_guard(g))
     have, F = atomic_facts_at(fa, node, assume)
+    if not fa.reachable(node, assume):
+        return ctx.ob(rule, False, fa.site(node), what, detail="the construct is unreachable on every feasible path (dead code)", func=fa.fi.qualname, key=key)
     have_norm = set()
     for k in have:
         fi = F.info[k]
